@@ -232,7 +232,7 @@ def c12(c):
     c.std([dict(src='c12_callbacks.cpp', build='asan', shards={'quick': 5, 'thorough': 5}, extra_inc=SHIM, libs=['-pthread'])])
     for k in ('callback_invocations_checked', 'builtin_decisions_checked', 'builtin_stops_on_target', 'stops_on_a_middle_iteration', 'stops_on_the_first_iteration',
               'target_never_reached', 'resumed_segments_checked', 'mpi_runs_checked', 'integrand_identically-zero', 'integrand_constant',
-              'integrand_non-finite-everywhere', 'integrand_zero-mean', 'positive_target_with_undefined_relative_error'):
+              'integrand_non-finite-everywhere', 'integrand_zero-mean', 'positive_target_with_undefined_relative_error', 'exact_target_runs'):
         c.require(k)
 
 
@@ -254,3 +254,23 @@ import c18 as _c18
       level='fault_enumeration', exhaustive=True)
 def c18(c):
     _c18.run(c)
+
+
+@prop('C05',
+      rule="case = one checkpoint (plain / VEGAS with default or user grid / multi-channel with default or user weights) built through the public "
+           "constructors with 0..4 results, 0..3 distributions (1-d/2-d, 1..40 bins, names {d1, 'two words', '', ' ', '  lead', 'trail  ', '#x', "
+           "'12 3', tab-led, 300 chars}), grids 2..64 bins x 1..4 dims, 1..12 channels, field values from {+-0, denormals, min normal, max, 1+ulp, "
+           "1/3, random bit patterns over the whole exponent range}, counters incl. 0 and 2^64-1, for each of the nine standard engines advanced "
+           "by a random amount; written to text, read back, compared accessor by accessor with memcmp (long double: 10 bytes), stream state and "
+           "left-over tokens checked, every stored generator parsed back from the re-serialised text and compared with the engine that was added. "
+           "non-trivial = at least one result (every case draws from the extreme value classes); distinct = hash of the text.",
+      assumptions=["field values are generated through the public constructors, so distribution bin sizes are (max-min)/bins as the constructor computes them",
+                   "generators other than the last are observed through the re-serialised text (they have no accessor)"])
+def c05(c):
+    progs = [dict(src='c05_format.cpp', build='asan', variants=_t_eng_variants(3), shards={'quick': 1, 'thorough': 2})]
+    if c.tier == 'thorough':
+        progs.append(dict(src='c05_format.cpp', build='clang', variants=_t_eng_variants(3), shards={'thorough': 1}))
+        progs.append(dict(src='c05_format.cpp', build='memcheck', variants=_t_eng_variants(3), shards={'thorough': 2}, args=['--tier', 'quick']))
+    c.std(progs)
+    for k in ('fields_compared', 'stored_generators_compared', 'checkpoints_plain', 'checkpoints_vegas', 'checkpoints_multi_channel'):
+        c.require(k)
